@@ -56,7 +56,7 @@ func init() {
 			{ID: "C18-reset-clears-full", Desc: "ResetOutput also clears the full buffer", Rule: "C18/execute",
 				Edits: []Edit{{File: "driver/generic/sendwithcallbacks.go", Old: "\tif cb.ResetOutput {\n\t\tb = nil\n\t}", New: "\tif cb.ResetOutput {\n\t\tb = nil\n\t\tfb = nil\n\t}"}}},
 			{ID: "C18-timeout-class", Desc: "timeout reported as an operation error", Rule: "C18/timeout",
-				Edits: []Edit{{File: "driver/generic/sendwithcallbacks.go", Old: "\tcase <-ctx.Done():\n\t\treturn nil, fmt.Errorf(\"%w: timeout handling callbacks\", util.ErrTimeoutError)", New: "\tcase <-ctx.Done():\n\t\treturn nil, fmt.Errorf(\"%w: timeout handling callbacks\", util.ErrOperationError)"}}},
+				Edits: []Edit{{File: "driver/generic/sendwithcallbacks.go", Old: "\t\t<-c\n\n\t\treturn nil, fmt.Errorf(\"%w: timeout handling callbacks\", util.ErrTimeoutError)", New: "\t\t<-c\n\n\t\treturn nil, fmt.Errorf(\"%w: timeout handling callbacks\", util.ErrOperationError)"}}},
 			{ID: "C18-default-sensitive", Desc: "callbacks case-sensitive by default", Rule: "C18/case",
 				Edits: []Edit{{File: "driver/generic/sendwithcallbacks.go", Old: "\t\tInsensitive:   true,", New: "\t\tInsensitive:   false,"}}},
 			{ID: "C18-option-wrong-field", Desc: "WithCallbackNotContains sets Contains", Rule: "C18/options",
